@@ -77,7 +77,7 @@ def decode(d):
 
 
 def parts(tier):
-    n = 3000 if tier == "quick" else 25000
+    n = 12000 if tier == "quick" else 40000
     return [
         core.Part("cells", "exhaustive", cell_cases),
         core.Part("sampled", "sampled", lambda: gen.cases(decode, 96), budget=n),
